@@ -569,6 +569,13 @@ pub fn run_case(case: &Arc<Case>, spec: &SchedSpec) -> RunOutput {
     };
     let log = env.log.lock().map(|g| g.clone()).unwrap_or_else(|p| p.into_inner().clone());
     let rec = rec.lock().unwrap().clone();
+    // break the reference cycle Env -> kept contexts -> context-function handlers -> Env
+    if let Ok(mut s) = env.slots.lock() {
+        s.clear();
+    }
+    if let Ok(mut s) = env.shared.lock() {
+        s.asts.clear();
+    }
     RunOutput { log, rec, verdict }
 }
 
